@@ -135,6 +135,13 @@ func (c *FnCtx) modCall(call *ast.CallExpr, ms *modSet) {
 			}
 			return
 		}
+		if pv, ok := callee.local.(*types.Var); ok && c.isParam(pv) {
+			// traced callback parameter: only its ghost trace changes (assumption: it does not touch the container)
+			for _, g := range []string{"calls.", "calls2.", "lastret.", "nextpos."} {
+				ms.ghost[g+pv.Name()] = true
+			}
+			return
+		}
 		ms.all = true
 		return
 	}
@@ -259,7 +266,7 @@ func (c *FnCtx) havocGhost(st *State, g string) {
 	if gv == nil {
 		return
 	}
-	st.ghost[g] = c.fresh("gh_"+g, gv.Sort)
+	st.ghost[g] = c.fresh("gh_"+sanitizeSym(g), gv.Sort)
 }
 
 // loopSpec returns the contract clauses for a loop node.
@@ -300,6 +307,9 @@ func (c *FnCtx) execLoop(st *State, node ast.Node, label string, bodyNode ast.No
 	if idx, ok := c.rangeIdx[node]; ok {
 		ms.vars[idx] = true
 	}
+	for _, o := range c.iterExtra[node] {
+		ms.vars[o] = true
+	}
 	mkHead := func(inferred []cand) *State {
 		h := st.clone()
 		c.havoc(h, ms, fmt.Sprintf("L%d", ord))
@@ -310,6 +320,11 @@ func (c *FnCtx) execLoop(st *State, node ast.Node, label string, bodyNode ast.No
 		if idx, ok := c.rangeIdx[node]; ok {
 			i := h.vars[idx]
 			h.assume(tAnd(tApp("<=", "0", i.T), tApp("<=", i.T, c.rangeLen[node])))
+			if ex := c.iterExtra[node]; len(ex) == 2 {
+				// at the head of the synthesized loop every earlier invocation returned true and there were idx of them
+				h.assume(tEq(h.vars[ex[0]].T, i.T))
+				h.assume(tOr(tEq(i.T, "0"), h.vars[ex[1]].T))
+			}
 		}
 		for _, k := range inferred {
 			if t := k.term(h); t != "" {
